@@ -1,7 +1,32 @@
 import Mutagen.Driver.Util
+import Mutagen.Driver.Tree
 namespace Mutagen.Driver.C04
+open Mutagen.Driver Mutagen.Driver.Tree Mutagen.Model
 
-/-- Model-side handler for one line of the C04 correspondence stream. -/
-def handle (_line : String) : String := "unimplemented"
+/-!
+Line: `<mode> <A> <alpha> <beta>`.  One fully applied cycle followed by a second
+reconciliation:
+  plan₁ = Reconcile A α β;  A' = Apply A (plan₁.anc ++ results(α changes) ++ results(β changes))
+  with ideal results (`New` of every change), α' = Apply α (α changes), β' = Apply β (β changes);
+  plan₂ = Reconcile A' α' β'.
+Answer: `<plan₁> | <A'> <α'> <β'> | <plan₂>`, or `<plan₁> | err:<which>` when an Apply fails.
+-/
+
+/-- controller.go:1347/1358: a transition result as an ancestor change. -/
+def resultChange (c : Change) : Change := { path := c.path, old := none, new := c.new }
+
+def handle (line : String) : String :=
+  match parseTriple (fields line) with
+  | none => "bad-op"
+  | some (m, a, al, be) =>
+    let p1 := Reconcile a al be m
+    let ancChanges := p1.anc ++ p1.alpha.map resultChange ++ p1.beta.map resultChange
+    match apply a ancChanges, apply al p1.alpha, apply be p1.beta with
+    | .ok a', .ok al', .ok be' =>
+      let p2 := Reconcile a' al' be' m
+      showPlan p1 ++ " | " ++ showOEntry a' ++ " " ++ showOEntry al' ++ " " ++ showOEntry be' ++ " | " ++ showPlan p2
+    | ra, ral, rbe =>
+      let bad (r : Except ApplyErr (Option Entry)) : Bool := match r with | .ok _ => false | .error _ => true
+      showPlan p1 ++ " | err:" ++ (if bad ra then "ancestor" else if bad ral then "alpha" else if bad rbe then "beta" else "none")
 
 end Mutagen.Driver.C04
